@@ -24,7 +24,13 @@ def main():
     sh(f"git -C /repo worktree remove --force {wt}"); shutil.rmtree(wt, ignore_errors=True)
     os.makedirs("/tmp/mv", exist_ok=True)
     r = sh(f"git -C /repo worktree add -q --detach {wt} HEAD"); assert r.returncode == 0, r.stderr
-    meta = {"id": sid, "property": prop, "needs": needs, "ran": []}
+    meta = {"id": sid, "property": prop, "needs": needs, "checks": checks, "ran": []}
+    old = f"/verif/seeded/{sid}/meta.json"
+    if os.path.exists(old):
+        o = json.load(open(old))
+        meta["needs"] = needs or o.get("needs", "")
+        if o.get("author_notes"):
+            meta["author_notes"] = o["author_notes"]
     try:
         d0 = sh(f"cd {wt} && PYTHONPATH={wt}/src timeout 600 /venv/bin/python {demo}")
         meta["ran"].append({"cmd": "demo on clean tree", "rc": d0.returncode})
@@ -56,9 +62,11 @@ def main():
         if ok_tests and ok_demo:
             dst = f"/verif/seeded/{sid}"
             os.makedirs(dst, exist_ok=True)
-            shutil.copy(patch, f"{dst}/patch.diff"); shutil.copy(demo, f"{dst}/demo.py")
+            for src_, name_ in ((patch, "patch.diff"), (demo, "demo.py")):
+                if os.path.abspath(src_) != os.path.abspath(f"{dst}/{name_}"):
+                    shutil.copy(src_, f"{dst}/{name_}")
             notes = os.path.join(os.path.dirname(patch), "notes.md")
-            if os.path.exists(notes):
+            if os.path.exists(notes) and "author_notes" not in meta:
                 meta["author_notes"] = open(notes).read()[:3000]
             json.dump(meta, open(f"{dst}/meta.json", "w"), indent=1)
             print("stored", dst)
